@@ -325,6 +325,23 @@ def explore(ctx, mods, cfg, r_ops, w_ops, bound, nrandom, limit, sink, opcodes=F
     run_once(sched.random_chooser(rr, switch_p=rr.choice([0.05, 0.15, 0.4])))
     n += 1
     sink(run_once.last, dict(cfg=cfg, r_ops=r_ops, w_ops=w_ops, rseed=seed, kind='random'))
+  # lock-release windows: right after the k-th release of the cache lock by one thread, the other thread
+  # runs one operation (or all of them) - the windows in which a narrowed lock or a moved statement shows
+  holder = {}
+
+  def run_plan(plan):
+    run = CacheRun(mods, cfg, r_ops, w_ops, opcodes=opcodes)
+    holder['run'] = run
+    ch = sched.landmark_chooser(lambda: holder['run'].sched, plan)
+    tr, log = run.execute(ch)
+    return tr
+  for k in range(1, min(2 * len(r_ops) + 2, 10)):
+    for plan in ([('R', ('kind', 'release', k)), ('W', ('kind', 'op', 1)), ('R', ('done',)), ('W', ('done',))],
+                 [('W', ('kind', 'release', k)), ('R', ('kind', 'op', 1)), ('W', ('done',)), ('R', ('done',))],
+                 [('W', ('kind', 'release', k)), ('R', ('done',)), ('W', ('done',))]):
+      tr = run_plan(plan)
+      n += 1
+      sink(tr, dict(cfg=cfg, r_ops=r_ops, w_ops=w_ops, kind='window', plan=[[p[0], list(p[1])] for p in plan]))
   return n, exhausted
 
 
@@ -334,6 +351,8 @@ def rerun(mods, origin):
   run = CacheRun(mods, origin['cfg'], [tuple(o) for o in origin['r_ops']], [tuple(o) for o in origin['w_ops']])
   if origin['kind'] == 'bounded':
     ch = sched.forced_chooser(dict((int(s), t) for s, t in origin['forced']))
+  elif origin['kind'] == 'window':
+    ch = sched.landmark_chooser(lambda: run.sched, [(p[0], tuple(p[1])) for p in origin['plan']])
   else:
     rr = random.Random(origin['rseed'])
     ch = sched.random_chooser(rr, switch_p=rr.choice([0.05, 0.15, 0.4]))
